@@ -35,23 +35,89 @@ theorem extract_getD (b : Bytes) (c i : Nat) (hi : i < c) (hc : c ≤ b.size) :
   simp [List.getD_eq_getElem?_getD, Array.getD, h2, List.getElem?_take, hi]
 
 /-- the "BADKEY" tail shared by the algorithm and key lookups -/
-theorem safe_badKey (tsigRr : Tsig.ReadTsigRr) (nowT : Tsig.TimeSigned) (an kn : WName)
+theorem tsigBadKey_safe (tsigRr : Tsig.ReadTsigRr) (nowT : Tsig.TimeSigned) (an kn : WName)
     (ha : WName.parse tsigRr.algorithm = some (an, [])) (haw : an.WF)
     (hk : WName.parse tsigRr.keyName = some (kn, [])) (hkw : kn.WF) (s : State) (hi : W.I s)
     {Q : Option Reader → State → Prop} (hq : ∀ s', Q none s') :
-    Safe W (do
-        setRcode (RC "NOTAUTH")
-        match WName.parse tsigRr.algorithm, preparedFromRead tsigRr nowT (XRC "BADKEY") with
-        | some (an, []), some prep => do
-          let _ ← setTsigOrTruncate (.unsigned an) prep
-          pure none
-        | _, _ => M.panic : M (Option Reader)) s Q := by
+    Safe W (tsigBadKey tsigRr nowT) s Q := by
   obtain ⟨prep, hp, hpk, hpt, hps⟩ := preparedFromRead_ok tsigRr nowT (XRC "BADKEY") kn hk
+  unfold tsigBadKey
   rw [ha, hp]
   refine safe_bind_M W (safe_setRcode W _ s hi) (fun _ s1 hi1 _ _ => ?_)
   refine safe_bind_M W (safe_setTsigOrTruncate W (.unsigned an) prep s1 hi1 ⟨?_, haw, hpt, hps⟩)
     (fun _ s2 hi2 _ _ => safe_pure_M W none s2 hi2 (hq s2))
   rw [hpk]; exact hkw
+
+/-- `verify_tsig_and_write_tsig_rr`: `verify_request` does not panic (the algorithm is the record's
+    own, the message has a header whose ARCOUNT counts the TSIG record) and the response TSIG meets
+    the contract of `set_tsig` -/
+theorem tsigVerifyAndWrite_safe (tsigRr : Tsig.ReadTsigRr) (message : List UInt8) (alg : Hmac.Alg)
+    (secret : List UInt8) (nowT : Tsig.TimeSigned) (r' : Reader) (kn : WName)
+    (hk : WName.parse tsigRr.keyName = some (kn, [])) (hkw : kn.WF)
+    (halgn : tsigRr.algorithm = Tsig.Algorithm.name alg) (hlen : 12 ≤ message.length)
+    (harc : Tsig.rd16 message Gen.ARCOUNT_START ≠ 0) (s : State) (hI : W.I s) :
+    Safe W (tsigVerifyAndWrite Tsig.realHmac tsigRr message alg secret nowT r') s
+      (fun res _ => ∀ r'', res = some r'' → r'' = r') := by
+  have hnp := verifyRequest_no_panic Tsig.realHmac tsigRr message alg secret nowT halgn hlen harc
+  have hprep := fun e => preparedFromRead_ok tsigRr nowT e kn hk
+  have tail : ∀ (rcode : Nat) (m : TsigMode) (prep : TsigRr), (tsigAlgName m).WF →
+      prep.keyName = kn → prep.timeSigned.length = 6 → prep.serverTime.length = 6 →
+      Safe W (do
+        setRcode rcode
+        let added ← setTsigOrTruncate m prep
+        if added && rcode = RC "NOERROR" then pure (some r') else pure none : M (Option Reader)) s
+        (fun res _ => ∀ r'', res = some r'' → r'' = r') := by
+    intro rcode m prep hm hk1 hk2 hk3
+    refine safe_bind_M W (safe_setRcode W _ s hI) (fun _ s1 hi1 _ _ => ?_)
+    refine safe_bind_M W (safe_setTsigOrTruncate W m prep s1 hi1 ⟨by rw [hk1]; exact hkw, hm, hk2, hk3⟩)
+      (fun added s2 hi2 _ _ => ?_)
+    split
+    · exact safe_pure_M W _ s2 hi2 (fun r'' hr' => by cases hr'; rfl)
+    · exact safe_pure_M W _ s2 hi2 (fun r'' hr' => by cases hr')
+  cases hres : Tsig.verifyRequest Tsig.realHmac tsigRr message alg secret nowT with
+  | panic => exact absurd hres hnp
+  | ok u =>
+    obtain ⟨prep, hp, k1, k2, k3⟩ := hprep (XRC "NOERROR")
+    refine safe_congr W ?_ (tail (RC "NOERROR")
+      (.response (toWriterAlg alg) (Tsig.ReadTsigRr.mac tsigRr) secret) prep (algName_WF _) k1 k2 k3)
+    simp only [tsigVerifyAndWrite, hres, tsigReply, hp]
+  | err e =>
+    cases e with
+    | BadSig =>
+      obtain ⟨prep, hp, k1, k2, k3⟩ := hprep (XRC "BADVERSBADSIG")
+      refine safe_congr W ?_ (tail (RC "NOTAUTH") (.unsigned (algName (toWriterAlg alg))) prep (algName_WF _) k1 k2 k3)
+      simp only [tsigVerifyAndWrite, hres, tsigReply, hp]
+    | BadTime =>
+      obtain ⟨prep, hp, k1, k2, k3⟩ := hprep (XRC "BADTIME")
+      refine safe_congr W ?_ (tail (RC "NOTAUTH")
+        (.response (toWriterAlg alg) (Tsig.ReadTsigRr.mac tsigRr) secret) prep (algName_WF _) k1 k2 k3)
+      simp only [tsigVerifyAndWrite, hres, tsigReply, hp]
+    | FormErr =>
+      obtain ⟨prep, hp, k1, k2, k3⟩ := hprep (XRC "BADVERSBADSIG")
+      refine safe_congr W ?_ (tail (RC "FORMERR") (.unsigned (algName (toWriterAlg alg))) prep (algName_WF _) k1 k2 k3)
+      simp only [tsigVerifyAndWrite, hres, tsigReply, hp]
+
+/-- the TSIG processing proper: algorithm lookup, key lookup, verification -/
+theorem tsigProcess_safe (keys : List Key) (nowT : Tsig.TimeSigned) (tsigRr : Tsig.ReadTsigRr)
+    (message : List UInt8) (r' : Reader) (w : List UInt8) (hlow : tsigRr.algorithm = Tsig.lowerName w)
+    (an kn : WName) (ha : WName.parse tsigRr.algorithm = some (an, [])) (haw : an.WF)
+    (hk : WName.parse tsigRr.keyName = some (kn, [])) (hkw : kn.WF) (hlen : 12 ≤ message.length)
+    (harc : Tsig.rd16 message Gen.ARCOUNT_START ≠ 0) (s : State) (hI : W.I s) :
+    Safe W (tsigProcess Tsig.realHmac keys nowT tsigRr message r') s
+      (fun res _ => ∀ r'', res = some r'' → r'' = r') := by
+  have bad := tsigBadKey_safe W tsigRr nowT an kn ha haw hk hkw s hI
+    (Q := fun res _ => ∀ r'', res = some r'' → r'' = r') (fun _ r'' hr' => by cases hr')
+  unfold tsigProcess
+  cases hfn : Tsig.Algorithm.fromName tsigRr.algorithm with
+  | none => exact bad
+  | some alg =>
+    simp only
+    cases hfk : findKey keys tsigRr.keyName alg with
+    | none => exact bad
+    | some key =>
+      have halgn : tsigRr.algorithm = Tsig.Algorithm.name alg := by
+        rw [hlow] at hfn ⊢; exact fromName_lower _ _ hfn
+      exact tsigVerifyAndWrite_safe W tsigRr message alg key.secret nowT r' kn hk hkw halgn hlen harc s hI
 
 /-- **the TSIG branch never panics** -/
 theorem handleTsig_safe (cfg : Cfg) (now : Nat) (hnow : now < 2^48) (r : Reader) (hi : RInv r)
@@ -104,90 +170,25 @@ theorem handleTsig_safe (cfg : Cfg) (now : Nat) (hnow : now < 2^48) (r : Reader)
         have hkey : tsigRr.keyName = Tsig.lowerName rr.owner := by rw [← htr]
         have han' : WName.parse tsigRr.algorithm = some (an, []) := by rw [halg]; exact han
         have hkn' : WName.parse tsigRr.keyName = some (kn, []) := by rw [hkey]; exact hkn
-        have bad := safe_badKey W tsigRr nowT an kn han' haw hkn' hkw s hI
-          (Q := fun res _ => ∀ r', res = some r' → r' = { r with cursor := p.rrEnd })
-          (fun _ r' hr' => by cases hr')
-        cases hfn : Tsig.Algorithm.fromName tsigRr.algorithm with
-        | none =>
-          refine safe_congr W ?_ bad
-          unfold handleTsig
-          simp only [hmsg, hpr]; rw [if_neg hraw]; simp only [hrty, hbl, hok, hnowT, hfn]
-          all_goals (try rfl)
-        | some alg =>
-          cases hfk : cfg.keys.find? (fun k => k.name == tsigRr.keyName && k.alg == alg) with
-          | none =>
-            refine safe_congr W ?_ bad
-            unfold handleTsig
-            simp only [hmsg, hpr]; rw [if_neg hraw]; simp only [hrty, hbl, hok, hnowT, hfn, hfk]
-            all_goals (try rfl)
-          | some key =>
-            have halgn : tsigRr.algorithm = alg.name := by
-              rw [halg] at hfn ⊢; exact fromName_lower _ _ hfn
-            have hlen : 12 ≤ (r.octets.extract 0 r.cursor).toList.length := by
-              have := hi.1.2; have := hi.2.1; simp; omega
-            have harc : Tsig.rd16 (r.octets.extract 0 r.cursor).toList Gen.ARCOUNT_START ≠ 0 := by
-              have c10 : Gen.ARCOUNT_START = 10 := by decide
-              rw [c10] at har ⊢
-              unfold Tsig.rd16
-              rw [extract_getD _ _ _ (by have := hi.2.1; omega) hi.1.2,
-                extract_getD _ _ _ (by have := hi.2.1; omega) hi.1.2]
-              have hlt := be16_lt r.octets 10
-              show UInt16.ofNat (be16 r.octets 10) ≠ 0
-              generalize be16 r.octets 10 = v at har hlt
-              intro hc
-              have := congrArg UInt16.toNat hc
-              simp at this
-              omega
-            have hnp := verifyRequest_no_panic Tsig.realHmac tsigRr _ alg key.secret nowT halgn hlen harc
-            obtain ⟨aln, halp, halw⟩ := algName_parses alg
-            have hprep := fun e => preparedFromRead_ok tsigRr nowT e kn hkn'
-            -- the common tail: set_rcode; set_tsig_or_truncate
-            have tail : ∀ (rcode : Nat) (m : TsigMode) (prep : TsigRr), (tsigAlgName m).WF →
-                prep.keyName = kn → prep.timeSigned.length = 6 → prep.serverTime.length = 6 →
-                Safe W (do
-                  setRcode rcode
-                  let added ← setTsigOrTruncate m prep
-                  if added && rcode = RC "NOERROR" then pure (some r'') else pure none : M (Option Reader)) s
-                  (fun res _ => ∀ r', res = some r' → r' = { r with cursor := p.rrEnd }) := by
-              intro rcode m prep hm hk1 hk2 hk3
-              refine safe_bind_M W (safe_setRcode W _ s hI) (fun _ s1 hi1 _ _ => ?_)
-              refine safe_bind_M W (safe_setTsigOrTruncate W m prep s1 hi1 ⟨by rw [hk1]; exact hkw, hm, hk2, hk3⟩)
-                (fun added s2 hi2 _ _ => ?_)
-              split
-              · exact safe_pure_M W _ s2 hi2 (fun r' hr' => by cases hr'; exact hr')
-              · exact safe_pure_M W _ s2 hi2 (fun r' hr' => by cases hr')
-            cases hres : Tsig.verifyRequest Tsig.realHmac tsigRr (r.octets.extract 0 r.cursor).toList alg
-                key.secret nowT with
-            | panic => exact absurd hres hnp
-            | ok u =>
-              obtain ⟨prep, hp, k1, k2, k3⟩ := hprep (XRC "NOERROR")
-              refine safe_congr W ?_ (tail (RC "NOERROR")
-                (.response (toWriterAlg alg) (Tsig.ReadTsigRr.mac tsigRr) key.secret) prep (algName_WF _) k1 k2 k3)
-              unfold handleTsig
-              simp only [hmsg, hpr]; rw [if_neg hraw]; simp only [hrty, hbl, hok, hnowT, hfn, hfk, hres, hp]
-              all_goals (try rfl)
-            | err e =>
-              cases e with
-              | BadSig =>
-                obtain ⟨prep, hp, k1, k2, k3⟩ := hprep (XRC "BADVERSBADSIG")
-                refine safe_congr W ?_ (tail (RC "NOTAUTH") (.unsigned aln) prep halw k1 k2 k3)
-                unfold handleTsig
-                simp only [hmsg, hpr]; rw [if_neg hraw]; simp only [hrty, hbl, hok, hnowT, hfn, hfk, hres, hp, halp,
-                  Option.map_some]
-                all_goals (try rfl)
-              | BadTime =>
-                obtain ⟨prep, hp, k1, k2, k3⟩ := hprep (XRC "BADTIME")
-                refine safe_congr W ?_ (tail (RC "NOTAUTH")
-                  (.response (toWriterAlg alg) (Tsig.ReadTsigRr.mac tsigRr) key.secret) prep (algName_WF _) k1 k2 k3)
-                unfold handleTsig
-                simp only [hmsg, hpr]; rw [if_neg hraw]; simp only [hrty, hbl, hok, hnowT, hfn, hfk, hres, hp]
-                all_goals (try rfl)
-              | FormErr =>
-                obtain ⟨prep, hp, k1, k2, k3⟩ := hprep (XRC "BADVERSBADSIG")
-                refine safe_congr W ?_ (tail (RC "FORMERR") (.unsigned aln) prep halw k1 k2 k3)
-                unfold handleTsig
-                simp only [hmsg, hpr]; rw [if_neg hraw]; simp only [hrty, hbl, hok, hnowT, hfn, hfk, hres, hp, halp,
-                  Option.map_some]
-                all_goals (try rfl)
+        have hlen : 12 ≤ (r.octets.extract 0 r.cursor).toList.length := by
+          have := hi.1.2; have := hi.2.1; simp; omega
+        have harc : Tsig.rd16 (r.octets.extract 0 r.cursor).toList Gen.ARCOUNT_START ≠ 0 := by
+          have c10 : Gen.ARCOUNT_START = 10 := by decide
+          rw [c10] at har ⊢
+          unfold Tsig.rd16
+          rw [extract_getD _ _ _ (by have := hi.2.1; omega) hi.1.2,
+            extract_getD _ _ _ (by have := hi.2.1; omega) hi.1.2]
+          have hlt := be16_lt r.octets 10
+          show UInt16.ofNat (be16 r.octets 10) ≠ 0
+          generalize be16 r.octets 10 = v at har hlt
+          intro hc
+          have := congrArg UInt16.toNat hc
+          simp at this
+          omega
+        have hproc := tsigProcess_safe W cfg.keys nowT tsigRr (r.octets.extract 0 r.cursor).toList r''
+          pu.wire halg an kn han' haw hkn' hkw hlen harc s hI
+        refine safe_congr W ?_ (hproc.weaken W (fun res _ _ _ hq r3 h3 => by rw [hq r3 h3, hr']))
+        unfold handleTsig
+        simp only [hmsg, hpr]; rw [if_neg hraw]; simp only [hrty, hbl, hok, hnowT]
 
 end QV.ServerSafety
